@@ -52,11 +52,12 @@ type RecSpec struct {
 
 // WorldSpec: one scenario for the HTTP monitor.
 type WorldSpec struct {
-	NIPs  int       `json:"nips"`
-	Recs  []RecSpec `json:"recs"`
-	Sizes []string  `json:"sizes"` // page sizes to walk with ("" = parameter omitted)
-	Pages int       `json:"pages"` // walk pages 0..min(totalPages, Pages) for every size
-	Batch int       `json:"batch,omitempty"` // ≥ 2: also post groups of this many listed entries in ONE request
+	NIPs    int       `json:"nips"`
+	Recs    []RecSpec `json:"recs"`
+	Sizes   []string  `json:"sizes"`             // page sizes to walk with ("" = parameter omitted)
+	Pages   int       `json:"pages"`             // walk pages 0..min(totalPages, Pages) for every size
+	Batch   int       `json:"batch,omitempty"`   // ≥ 2: also post groups of this many listed entries in ONE request
+	Regions int       `json:"regions,omitempty"` // 3: spread the pool over 10/8, 100.64/10 and 192.168/16
 }
 
 type Viol struct {
@@ -122,21 +123,35 @@ type world struct {
 	subnet *net.IPNet
 }
 
-func newWorld(nips int) (*world, error) {
+// regionBases: with Regions = 3 the pool is spread over three address regions that pairwise lie more than 2^31 apart
+// going round (10/8 < 100.64/10 < 192.168/16 < 10/8 + 2^32), so that any ordering of ips that is not a total order on
+// the whole IPv4 space shows.
+var regionBases = []string{"10.0.70.2", "100.64.0.2", "192.168.0.2"}
+var regionSubnets = [][2]string{{"10.0.68.0/22", "10.0.68.1"}, {"100.64.0.0/22", "100.64.0.1"}, {"192.168.0.0/22", "192.168.0.1"}}
+
+func newWorld(nips, regions int) (*world, error) {
 	if nips < 1 || nips > 700 {
 		return nil, fmt.Errorf("nips out of range")
 	}
-	base := binary.BigEndian.Uint32(net.ParseIP("10.0.70.2").To4())
+	if regions != 3 || nips < 3 {
+		regions = 1
+	}
 	ipOf := func(i int) string {
+		base := binary.BigEndian.Uint32(net.ParseIP(regionBases[i%regions]).To4())
 		b := make([]byte, 4)
-		binary.BigEndian.PutUint32(b, base+uint32(i))
+		binary.BigEndian.PutUint32(b, base+uint32(i/regions))
 		return net.IP(b).String()
 	}
-	rng := ipOf(0)
-	if nips > 1 {
-		rng = ipOf(0) + "~" + ipOf(nips-1)
+	var pools []string
+	for r := 0; r < regions; r++ {
+		cnt := (nips - r + regions - 1) / regions // indices r, r+regions, …
+		rng := ipOf(r)
+		if cnt > 1 {
+			rng = ipOf(r) + "~" + ipOf(r+(cnt-1)*regions)
+		}
+		pools = append(pools, fmt.Sprintf(`{"nodeSubnets":["10.0.1.0/24"],"ips":[%q],"subnet":%q,"gateway":%q}`, rng, regionSubnets[r][0], regionSubnets[r][1]))
 	}
-	conf := fmt.Sprintf(`{"floatingips":[{"nodeSubnets":["10.0.1.0/24"],"ips":[%q],"subnet":"10.0.68.0/22","gateway":"10.0.68.1"}]}`, rng)
+	conf := `{"floatingips":[` + strings.Join(pools, ",") + `]}`
 	var c schedulerplugin.Conf
 	if err := json.Unmarshal([]byte(conf), &c); err != nil {
 		return nil, err
@@ -299,7 +314,9 @@ func entryTokens(raw json.RawMessage, inLister bool) string {
 		Enc(str(m, "appName")), Enc(str(m, "podName")), Enc(str(m, "poolName")), inLister, inLister)
 }
 
-func releaseLine(raw json.RawMessage, inLister bool) string { return "release " + entryTokens(raw, inLister) }
+func releaseLine(raw json.RawMessage, inLister bool) string {
+	return "release " + entryTokens(raw, inLister)
+}
 
 func diffMaps(a, b map[string]string) []string {
 	var d []string
@@ -319,7 +336,7 @@ func diffMaps(a, b map[string]string) []string {
 
 // RunWorld plays one scenario against the real handlers. rep gets histogram hits only.
 func RunWorld(spec WorldSpec, rep *hx.Report) (res WorldResult) {
-	w, err := newWorld(spec.NIPs)
+	w, err := newWorld(spec.NIPs, spec.Regions)
 	if err != nil {
 		res.Err = err.Error()
 		return
@@ -420,12 +437,25 @@ func RunWorld(spec WorldSpec, rep *hx.Report) (res WorldResult) {
 		return
 	}
 	res.Listed += len(F)
+	// "sorted by ip": one total order on ips — the ip strings (what the code does) or the addresses as numbers
 	seen := map[string]int{}
+	byString, byNumber := true, true
+	firstBad := ""
 	for i, e := range F {
 		seen[e.f.IP]++
-		if i > 0 && !(F[i-1].f.IP < e.f.IP) {
-			viol("list-not-sorted", fmt.Sprintf("full list not strictly ascending by ip at %d: %s, %s", i, F[i-1].f.IP, e.f.IP))
+		if i > 0 {
+			s, n := F[i-1].f.IP < e.f.IP, ipNum(F[i-1].f.IP) < ipNum(e.f.IP)
+			byString, byNumber = byString && s, byNumber && n
+			if firstBad == "" && (!s || !n) {
+				firstBad = fmt.Sprintf("at %d: %s, %s", i, F[i-1].f.IP, e.f.IP)
+			}
 		}
+	}
+	if !byString && !byNumber {
+		viol("list-not-sorted", "full list is strictly ascending neither by ip string nor by ip number, first inversion "+firstBad)
+	}
+	if byNumber && !byString {
+		rep.Hit("world.sorted-numerically")
 	}
 	for _, ip := range w.ips {
 		if seen[ip] != 1 {
